@@ -518,6 +518,91 @@ def handle_nlcomp(c):
             'kind': 'nlcomp ' + method + (' colored' if col is not None else ' nocoloring')}
 
 
+# ------------------------------------------------------------------------------------ several response components
+
+def _rows_comp(A, shape_in):
+    """y = A @ x with rows/cols partials (one response component)"""
+    A = np.array(A, dtype=float)
+
+    class Rows(om.ExplicitComponent):
+        def setup(self):
+            self.add_input('x', np.ones(shape_in))
+            self.add_output('y', np.zeros(A.shape[0]))
+            r, c = np.nonzero(A)
+            if r.size:
+                self.declare_partials('y', 'x', rows=r, cols=c, val=A[r, c])
+
+        def compute(self, i, o):
+            o['y'] = A @ i['x']
+
+        def compute_partials(self, i, p):
+            pass
+    return Rows()
+
+
+def _multi_problem(c, colored):
+    n = len(c['blocks'][0][0])
+    p = om.Problem()
+    m = p.model
+    m.add_subsystem('ivc', om.IndepVarComp('x', np.array(c['x'], dtype=float)))
+    for k, A in enumerate(c['blocks']):
+        m.add_subsystem('r%d' % k, _rows_comp(A, n))
+        m.connect('ivc.x', 'r%d.x' % k)
+    m.add_design_var('ivc.x', scaler=c.get('dv_scaler'))
+    for k, A in enumerate(c['blocks']):
+        if k == c['obj']:
+            m.add_objective('r%d.y' % k, index=0)
+            if len(A) > 1:
+                m.add_constraint('r%d.y' % k, indices=list(range(1, len(A))), upper=1000., alias='c%d' % k)
+        else:
+            m.add_constraint('r%d.y' % k, upper=1000., scaler=c.get('con_scaler') if k == 0 else None)
+    p.driver = om.ScipyOptimizeDriver()
+    if colored:
+        p.driver.declare_coloring(direct=bool(c['direct']), show_summary=False, show_sparsity=False,
+                                  num_full_jacs=1, tol=1e-20, min_improve_pct=0.)
+    if c.get('mode'):
+        p.setup(mode=c['mode'])
+    else:
+        p.setup()                       # default mode ('auto')
+    p.run_model()
+    return p
+
+
+def handle_totals_multi(c):
+    """several response components fed by one design variable, problem mode left at its default; the driver's
+    total colouring may then do fwd AND rev solves in one compute_totals while each rev solve skips the components
+    that are not relevant to it.  Coloured totals (driver order, twice) must equal the uncoloured ones."""
+    pc, pu = _multi_problem(c, True), _multi_problem(c, False)
+    bad = []
+    ds = bool(c.get('ds'))
+    ju = pu.compute_totals(return_format='flat_dict', driver_scaling=ds)
+    info = 'nocoloring'
+    for call in range(2):
+        try:
+            jc = pc.compute_totals(return_format='flat_dict', driver_scaling=ds)
+        except Exception as e:      # noqa
+            bad.append('coloured compute_totals raised %s: %s' % (type(e).__name__, str(e)[:150]))
+            break
+        col = pc.driver._coloring_info.coloring
+        if col is not None:
+            nf = len(col._fwd[0]) if col._fwd else 0
+            nr = len(col._rev[0]) if col._rev else 0
+            info = 'bidirectional' if (nf and nr) else ('fwd-only' if nf else 'rev-only')
+            nresp = sum(len(A) for A in c['blocks'])
+            if nf + nr > min(len(c['x']), nresp):
+                bad.append('colouring needs %d solves, uncoloured %d' % (nf + nr, min(len(c['x']), nresp)))
+        for key in ju:
+            if key not in jc or not np.array_equal(np.asarray(ju[key]), np.asarray(jc[key])):
+                bad.append('call %d: d%s/d%s coloured (%s, mode %s, direct=%s) %s, uncoloured %s' % (
+                    call + 1, key[0], key[1], info, c.get('mode') or 'default', c['direct'],
+                    np.asarray(jc.get(key)).tolist(), np.asarray(ju[key]).tolist()))
+                break
+        if bad:
+            break
+    return {'res': '__none__', 'ok': not bad, 'msg': '; '.join(bad)[:1500], 'sig': 'totals-several-response-components',
+            'kind': 'totals multi-component %s %s' % (c.get('mode') or 'default-mode', info)}
+
+
 def handle(c):
     k = c['kind']
     if k == 'pat':
@@ -532,6 +617,8 @@ def handle(c):
         return handle_execcomp(c)
     if k == 'nlcomp':
         return handle_nlcomp(c)
+    if k == 'totals_multi':
+        return handle_totals_multi(c)
     raise ValueError(k)
 
 
